@@ -208,8 +208,8 @@ class LocationTableEntry:
         self.update_position_vector(position_vector)
         # step 5
         self.update_pdr(position_vector, (len(packet) + 8 + 4))
-        # step 6
-        self.is_neighbour = False
+        # step 6: IS_NEIGHBOUR stays FALSE for a new entry (its initial value) and is
+        # left unchanged for a source already known as a neighbour
 
     def check_duplicate_sn(self, sn: int) -> None:
         """
